@@ -166,8 +166,11 @@ pub mod atomic {
     pub use std::sync::atomic::Ordering;
 
     pub fn fence(order: Ordering) {
+        // hooks() first: it reports pending writes made through a DerefMut borrow, which precede
+        // this operation in program order
+        let h = hooks();
         std::sync::atomic::fence(order);
-        if let Some(h) = hooks() {
+        if let Some(h) = h {
             (h.fence)(order)
         }
     }
@@ -197,48 +200,56 @@ pub mod atomic {
                     self as *const Self as usize
                 }
                 pub fn load(&self, order: Ordering) -> $ty {
+                    let h = hooks();
                     let real = self.0.load(order);
-                    match hooks() {
+                    match h {
                         Some(h) => (h.load)(self.addr(), $size, order, real as u64) as $ty,
                         None => real,
                     }
                 }
                 pub fn store(&self, v: $ty, order: Ordering) {
+                    let h = hooks();
                     self.0.store(v, order);
-                    if let Some(h) = hooks() {
+                    if let Some(h) = h {
                         (h.store)(self.addr(), $size, order, v as u64)
                     }
                 }
                 #[inline]
-                fn rmw(&self, order: Ordering, old: $ty, new: $ty) -> $ty {
-                    match hooks() {
+                fn rmw(&self, h: Option<&'static super::Hooks>, order: Ordering, old: $ty, new: $ty) -> $ty {
+                    match h {
                         Some(h) => (h.rmw)(self.addr(), $size, order, old as u64, new as u64) as $ty,
                         None => old,
                     }
                 }
                 pub fn swap(&self, v: $ty, order: Ordering) -> $ty {
+                    let h = hooks();
                     let old = self.0.swap(v, order);
-                    self.rmw(order, old, v)
+                    self.rmw(h, order, old, v)
                 }
                 pub fn fetch_add(&self, v: $ty, order: Ordering) -> $ty {
+                    let h = hooks();
                     let old = self.0.fetch_add(v, order);
-                    self.rmw(order, old, old.wrapping_add(v))
+                    self.rmw(h, order, old, old.wrapping_add(v))
                 }
                 pub fn fetch_sub(&self, v: $ty, order: Ordering) -> $ty {
+                    let h = hooks();
                     let old = self.0.fetch_sub(v, order);
-                    self.rmw(order, old, old.wrapping_sub(v))
+                    self.rmw(h, order, old, old.wrapping_sub(v))
                 }
                 pub fn fetch_or(&self, v: $ty, order: Ordering) -> $ty {
+                    let h = hooks();
                     let old = self.0.fetch_or(v, order);
-                    self.rmw(order, old, old | v)
+                    self.rmw(h, order, old, old | v)
                 }
                 pub fn fetch_and(&self, v: $ty, order: Ordering) -> $ty {
+                    let h = hooks();
                     let old = self.0.fetch_and(v, order);
-                    self.rmw(order, old, old & v)
+                    self.rmw(h, order, old, old & v)
                 }
                 pub fn fetch_xor(&self, v: $ty, order: Ordering) -> $ty {
+                    let h = hooks();
                     let old = self.0.fetch_xor(v, order);
-                    self.rmw(order, old, old ^ v)
+                    self.rmw(h, order, old, old ^ v)
                 }
                 pub fn compare_exchange(
                     &self,
@@ -247,9 +258,10 @@ pub mod atomic {
                     success: Ordering,
                     failure: Ordering,
                 ) -> Result<$ty, $ty> {
+                    let h = hooks();
                     match self.0.compare_exchange(current, new, success, failure) {
-                        Ok(old) => Ok(self.rmw(success, old, new)),
-                        Err(seen) => Err(match hooks() {
+                        Ok(old) => Ok(self.rmw(h, success, old, new)),
+                        Err(seen) => Err(match h {
                             Some(h) => (h.load)(self.addr(), $size, failure, seen as u64) as $ty,
                             None => seen,
                         }),
